@@ -1,8 +1,622 @@
-import Plonk.Model.Composer
+/-
+  Property C08 — arithmetic, equality, boolean and selection components are exact.
+
+  Conventions.  `c` is the composer state before the call, `c' := ((X args).run c).2` the state
+  after it, `w : Nat → Nat` an arbitrary assignment of values to witness indices (what a prover
+  may choose), `c'.rowsHoldW w c.gates.size c'.gates.size` says that the rows appended by the call
+  hold under `w`, and `toF : Nat → F = ZMod R` interprets values in the scalar field.
+
+  For every component there is
+    * `X_layout`  : what is appended (`Appends c c' k m`: `c'` extends `c` by `k` plain gates and
+                    `m` witnesses) and which witness index is returned;
+    * `X_iff`     : appended rows hold under `w`  ↔  documented algebraic relation on `w`;
+    * `X_unique`  : (components returning a witness) two assignments that agree on the input
+                    wires and both satisfy the rows agree on the returned witness;
+    * `X_exists`  : (components returning a witness) every assignment of the old witnesses
+                    extends to one satisfying the rows, i.e. the component constrains nothing
+                    but its output;
+    * `X_honest`  : the model's own witness table satisfies the rows (when the relation is
+                    satisfiable for the inputs).
+
+  Everything is proved at full strength; there is no `_partial` theorem.  Forced hypotheses
+  (findings, none of them a defect of the Rust code):
+    * `c.WF` in every `_iff`: only its component `pis_zero` is used (no public input is recorded
+      for a row index that does not exist yet) — otherwise a stale sparse public input would leak
+      into the fresh row.  It is an invariant of every state reachable from `initialized`.
+    * `s.hasPi = false → s.pi = 0` in `gateAdd_honest` / `appendEvaluatedOutput_honest`:
+      `append_evaluated_output` solves the output with the public-input *coefficient* `s.pi`,
+      while the row only carries it when the flag `has_public_input` is set.  Through the public
+      Rust API (`Constraint::public`) the coefficient is only ever set together with the flag.
+    * operands `< c.wit.size` in `_honest`, `_exists` (the operands were allocated before).
+-/
+import Plonk.Proofs.Arith
 namespace Plonk.Props.C08
-open Plonk
+open Plonk Plonk.Composer
 
 /-- `MINUS_ONE` of `append_evaluated_output` is the Montgomery form of `−1`. -/
 theorem minus_one_mont : Generated.MINUS_ONE_MONT = ((R - 1) * 2 ^ 256) % R := by decide +kernel
+
+/-! ## the general gate `append_gate` -/
+
+theorem appendGate_layout (s : Constraint) (c : Composer) :
+    Appends c ((appendGate s).run c).2 1 0 := appendGate_appends s c
+
+example : Appends initialized ((appendGate { ql := 1, a := 3 }).run initialized).2 1 0 :=
+  appendGate_layout _ _
+
+/-- The row appended by `append_gate s` holds under `w` iff
+    `q_M·a·b + q_L·a + q_R·b + q_O·c + q_F·d + q_C + PI = 0`, `PI` being `s.pi` when the
+    constraint carries a public input and `0` otherwise. -/
+theorem appendGate_iff (s : Constraint) (c : Composer) (hwf : c.WF) (w : Nat → Nat) :
+    ((appendGate s).run c).2.rowsHoldW w c.gates.size ((appendGate s).run c).2.gates.size ↔
+      toF s.qm * toF (w s.a) * toF (w s.b) + toF s.ql * toF (w s.a) + toF s.qr * toF (w s.b)
+        + toF s.qo * toF (w s.c) + toF s.qf * toF (w s.d) + toF s.qc
+        + (if s.hasPi then toF s.pi else 0) = 0 :=
+  appendGate_rows_iff s c hwf w
+
+/-- non-vacuity: on `initialized`, the gate `6·7 + 2·6 + 3·7 + 4·(−20) + 1·1 + 4 = 0` of the dummy
+    rows, re-appended, is satisfied by the model's own values, and the gate `w₀ + 5 = 0` is not. -/
+example :
+    ((appendGate { qm := 1, ql := 2, qr := 3, qf := 1, qc := 4, qo := 4,
+                   a := 2, b := 4, d := 3, c := 5 }).run initialized).2.rowsHoldW
+      initialized.val 4 5 ∧
+    ¬ ((appendGate { ql := 1, qc := 5, a := 0 }).run initialized).2.rowsHoldW initialized.val 4 5 := by
+  constructor
+  · exact (appendGate_iff _ initialized initialized_wf _).mpr (by decide +kernel)
+  · intro h
+    exact absurd ((appendGate_iff _ initialized initialized_wf _).mp h) (by decide +kernel)
+
+/-- the model's own table satisfies the appended row iff its values satisfy the relation -/
+theorem appendGate_honest_iff (s : Constraint) (c : Composer) (hwf : c.WF) :
+    ((appendGate s).run c).2.rowsHoldW ((appendGate s).run c).2.val c.gates.size
+        ((appendGate s).run c).2.gates.size ↔ s.arithRel c.val :=
+  Composer.appendGate_honest_iff s c hwf
+
+example : Composer.WF initialized := initialized_wf
+
+/-! ## `append_evaluated_output` -/
+
+/-- invertible `q_O`: one witness (index `c.wit.size`, returned) and one plain gate are appended -/
+theorem appendEvaluatedOutput_layout (s : Constraint) (c : Composer) (h : toF s.qo ≠ 0) :
+    ((appendEvaluatedOutput s).run c).1 = some c.wit.size ∧
+      Appends c ((appendEvaluatedOutput s).run c).2 1 1 :=
+  ⟨appendEvaluatedOutput_fst s c h, appendEvaluatedOutput_appends s c h⟩
+
+/-- non-invertible `q_O`: nothing is returned, no witness is allocated, one gate is appended -/
+theorem appendEvaluatedOutput_layout_none (s : Constraint) (c : Composer) (h : toF s.qo = 0) :
+    ((appendEvaluatedOutput s).run c).1 = none ∧
+      Appends c ((appendEvaluatedOutput s).run c).2 1 0 :=
+  ⟨appendEvaluatedOutput_fst_none s c h, appendEvaluatedOutput_appends_none s c h⟩
+
+example : toF ({ qm := 1, qo := 5, a := 2, b := 4 } : Constraint).qo ≠ 0 := by decide +kernel
+example : toF ({ qm := 1, qo := R, a := 2, b := 4 } : Constraint).qo = 0 := by decide +kernel
+
+/-- invertible `q_O`: the row holds under `w` iff
+    `q_M·a·b + q_L·a + q_R·b + q_F·d + q_C + q_O·o + PI = 0` with `o` the returned witness
+    (the wire `c` of `s` is ignored). -/
+theorem appendEvaluatedOutput_iff (s : Constraint) (c : Composer) (hwf : c.WF) (h : toF s.qo ≠ 0)
+    (w : Nat → Nat) :
+    ((appendEvaluatedOutput s).run c).2.rowsHoldW w c.gates.size
+        ((appendEvaluatedOutput s).run c).2.gates.size ↔
+      toF s.qm * toF (w s.a) * toF (w s.b) + toF s.ql * toF (w s.a) + toF s.qr * toF (w s.b)
+        + toF s.qf * toF (w s.d) + toF s.qc + toF s.qo * toF (w c.wit.size)
+        + (if s.hasPi then toF s.pi else 0) = 0 :=
+  appendEvaluatedOutput_rows_iff s c hwf h w
+
+/-- non-vacuity: `q_O = 5` on `initialized` (general inverse path), model's own values -/
+example :
+    ((appendEvaluatedOutput { qm := 1, qo := 5, a := 2, b := 4 }).run initialized).2.rowsHoldW
+      ((appendEvaluatedOutput { qm := 1, qo := 5, a := 2, b := 4 }).run initialized).2.val 4 5 :=
+  appendEvaluatedOutput_honest _ initialized initialized_wf (by decide +kernel) (fun _ => rfl)
+    (by decide +kernel) (by decide +kernel) (by decide +kernel)
+
+/-- non-invertible `q_O`: the row is the arithmetic relation of `s` on the *given* wires -/
+theorem appendEvaluatedOutput_iff_none (s : Constraint) (c : Composer) (hwf : c.WF)
+    (h : toF s.qo = 0) (w : Nat → Nat) :
+    ((appendEvaluatedOutput s).run c).2.rowsHoldW w c.gates.size
+        ((appendEvaluatedOutput s).run c).2.gates.size ↔
+      toF s.qm * toF (w s.a) * toF (w s.b) + toF s.ql * toF (w s.a) + toF s.qr * toF (w s.b)
+        + toF s.qo * toF (w s.c) + toF s.qf * toF (w s.d) + toF s.qc
+        + (if s.hasPi then toF s.pi else 0) = 0 :=
+  appendEvaluatedOutput_rows_iff_none s c hwf h w
+
+example : ((appendEvaluatedOutput { ql := 1, a := 0 }).run initialized).1 = none ∧
+    ((appendEvaluatedOutput { ql := 1, a := 0 }).run initialized).2.rowsHoldW initialized.val 4 5 :=
+  ⟨(appendEvaluatedOutput_layout_none _ _ (by decide +kernel)).1,
+   (appendEvaluatedOutput_iff_none _ initialized initialized_wf (by decide +kernel) _).mpr
+     (by decide +kernel)⟩
+
+/-- the returned witness is determined by the input wires -/
+theorem appendEvaluatedOutput_unique (s : Constraint) (c : Composer) (hwf : c.WF)
+    (h : toF s.qo ≠ 0) (w₁ w₂ : Nat → Nat)
+    (ha : toF (w₁ s.a) = toF (w₂ s.a)) (hb : toF (w₁ s.b) = toF (w₂ s.b))
+    (hd : toF (w₁ s.d) = toF (w₂ s.d))
+    (h₁ : ((appendEvaluatedOutput s).run c).2.rowsHoldW w₁ c.gates.size
+        ((appendEvaluatedOutput s).run c).2.gates.size)
+    (h₂ : ((appendEvaluatedOutput s).run c).2.rowsHoldW w₂ c.gates.size
+        ((appendEvaluatedOutput s).run c).2.gates.size) :
+    toF (w₁ c.wit.size) = toF (w₂ c.wit.size) := by
+  have e₁ := (appendEvaluatedOutput_iff s c hwf h w₁).mp h₁
+  have e₂ := (appendEvaluatedOutput_iff s c hwf h w₂).mp h₂
+  rw [ha, hb, hd] at e₁
+  have : toF s.qo * (toF (w₁ c.wit.size) - toF (w₂ c.wit.size)) = 0 := by
+    linear_combination e₁ - e₂
+  rcases mul_eq_zero.mp this with h0 | h0
+  · exact absurd h0 h
+  · exact sub_eq_zero.mp h0
+
+/-- every assignment of the old witnesses extends to the output -/
+theorem appendEvaluatedOutput_exists (s : Constraint) (c : Composer) (hwf : c.WF)
+    (h : toF s.qo ≠ 0) (ha : s.a < c.wit.size) (hb : s.b < c.wit.size) (hd : s.d < c.wit.size)
+    (w₀ : Nat → Nat) :
+    ∃ w, (∀ i, i ≠ c.wit.size → w i = w₀ i) ∧
+      ((appendEvaluatedOutput s).run c).2.rowsHoldW w c.gates.size
+        ((appendEvaluatedOutput s).run c).2.gates.size :=
+  Composer.appendEvaluatedOutput_exists s c hwf h ha hb hd w₀
+
+/-- The value stored by the model is `−(q_M·a·b + q_L·a + q_R·b + q_F·d + q_C + PI)/q_O`, whichever
+    of the three code paths (`q_O = 1`, `q_O = −1`, general inverse) computed it. -/
+theorem appendEvaluatedOutput_value (s : Constraint) (c : Composer) (h : toF s.qo ≠ 0) :
+    toF (((appendEvaluatedOutput s).run c).2.val c.wit.size) =
+      -(toF s.qm * toF (c.val s.a) * toF (c.val s.b) + toF s.ql * toF (c.val s.a)
+          + toF s.qr * toF (c.val s.b) + toF s.qf * toF (c.val s.d) + toF s.qc + toF s.pi)
+        / toF s.qo :=
+  appendEvaluatedOutput_val s c h
+
+/-- the model's own table satisfies the appended row -/
+theorem appendEvaluatedOutput_honest (s : Constraint) (c : Composer) (hwf : c.WF)
+    (h : toF s.qo ≠ 0) (hpi : s.hasPi = false → s.pi = 0)
+    (ha : s.a < c.wit.size) (hb : s.b < c.wit.size) (hd : s.d < c.wit.size) :
+    ((appendEvaluatedOutput s).run c).2.rowsHoldW ((appendEvaluatedOutput s).run c).2.val
+        c.gates.size ((appendEvaluatedOutput s).run c).2.gates.size :=
+  Composer.appendEvaluatedOutput_honest s c hwf h hpi ha hb hd
+
+/-- non-vacuity of `_unique`, `_exists`, `_honest`, `_value`: all three code paths on `initialized`
+    (`q_O = 1`, `q_O = R − 1`, `q_O = 5`) with a public input -/
+example : ∀ qo ∈ [1, R - 1, 5],
+    let s : Constraint := { qm := 1, ql := 3, qo := qo, qc := 9, pi := 11, hasPi := true,
+                            a := 2, b := 4, d := 3 }
+    initialized.WF ∧ toF s.qo ≠ 0 ∧ (s.hasPi = false → s.pi = 0) ∧ s.a < initialized.wit.size ∧
+      s.b < initialized.wit.size ∧ s.d < initialized.wit.size := by
+  intro qo hq
+  simp only [List.mem_cons, List.mem_nil_iff, or_false] at hq
+  refine ⟨initialized_wf, ?_, fun h => by simp at h, by show 2 < _; decide +kernel,
+    by show 4 < _; decide +kernel, by show 3 < _; decide +kernel⟩
+  rcases hq with h | h | h <;> subst h <;> decide +kernel
+
+/-! ## `gate_add` / `gate_mul` -/
+
+/-- one witness (index `c.wit.size`, returned) and one plain gate are appended -/
+theorem gateAdd_layout (s : Constraint) (c : Composer) :
+    ((gateAdd s).run c).1 = c.wit.size ∧ Appends c ((gateAdd s).run c).2 1 1 :=
+  ⟨gateAdd_fst s c, gateAdd_appends s c⟩
+
+example : ((gateAdd { ql := 1, qr := 1, a := 2, b := 4 }).run initialized).1 = 6 :=
+  (gateAdd_layout _ _).1
+
+/-- The row of `gate_add s` holds under `w` iff the returned witness `o` carries
+    `q_M·a·b + q_L·a + q_R·b + q_F·d + q_C + PI` (`q_O` of `s`, its wire `c` and its internal
+    selectors are ignored: `q_O := −1`). -/
+theorem gateAdd_iff (s : Constraint) (c : Composer) (hwf : c.WF) (w : Nat → Nat) :
+    ((gateAdd s).run c).2.rowsHoldW w c.gates.size ((gateAdd s).run c).2.gates.size ↔
+      toF (w ((gateAdd s).run c).1) =
+        toF s.qm * toF (w s.a) * toF (w s.b) + toF s.ql * toF (w s.a) + toF s.qr * toF (w s.b)
+          + toF s.qf * toF (w s.d) + toF s.qc + (if s.hasPi then toF s.pi else 0) := by
+  rw [gateAdd_fst]; exact gateAdd_rows_iff s c hwf w
+
+/-- the returned witness is determined by the input wires -/
+theorem gateAdd_unique (s : Constraint) (c : Composer) (hwf : c.WF) (w₁ w₂ : Nat → Nat)
+    (ha : toF (w₁ s.a) = toF (w₂ s.a)) (hb : toF (w₁ s.b) = toF (w₂ s.b))
+    (hd : toF (w₁ s.d) = toF (w₂ s.d))
+    (h₁ : ((gateAdd s).run c).2.rowsHoldW w₁ c.gates.size ((gateAdd s).run c).2.gates.size)
+    (h₂ : ((gateAdd s).run c).2.rowsHoldW w₂ c.gates.size ((gateAdd s).run c).2.gates.size) :
+    toF (w₁ ((gateAdd s).run c).1) = toF (w₂ ((gateAdd s).run c).1) := by
+  rw [(gateAdd_iff s c hwf w₁).mp h₁, (gateAdd_iff s c hwf w₂).mp h₂, ha, hb, hd]
+
+/-- every assignment of the old witnesses extends to the output: `gate_add` constrains nothing
+    but its output -/
+theorem gateAdd_exists (s : Constraint) (c : Composer) (hwf : c.WF)
+    (ha : s.a < c.wit.size) (hb : s.b < c.wit.size) (hd : s.d < c.wit.size) (w₀ : Nat → Nat) :
+    ∃ w, (∀ i, i ≠ c.wit.size → w i = w₀ i) ∧
+      ((gateAdd s).run c).2.rowsHoldW w c.gates.size ((gateAdd s).run c).2.gates.size :=
+  Composer.gateAdd_exists s c hwf ha hb hd w₀
+
+/-- the model's own table satisfies the appended row -/
+theorem gateAdd_honest (s : Constraint) (c : Composer) (hwf : c.WF)
+    (hpi : s.hasPi = false → s.pi = 0)
+    (ha : s.a < c.wit.size) (hb : s.b < c.wit.size) (hd : s.d < c.wit.size) :
+    ((gateAdd s).run c).2.rowsHoldW ((gateAdd s).run c).2.val c.gates.size
+      ((gateAdd s).run c).2.gates.size :=
+  Composer.gateAdd_honest s c hwf hpi ha hb hd
+
+/-- non-vacuity: `o = w₂·w₄ + 2·w₂ + 5` on `initialized` (`w₂ = 6`, `w₄ = 7`): the hypotheses hold,
+    the model stores `6·7 + 2·6 + 5 = 59`, and that value is forced. -/
+example :
+    let s : Constraint := { qm := 1, ql := 2, qc := 5, a := 2, b := 4 }
+    initialized.WF ∧ (s.hasPi = false → s.pi = 0) ∧ s.a < initialized.wit.size ∧
+      s.b < initialized.wit.size ∧ s.d < initialized.wit.size ∧
+      ((gateAdd s).run initialized).2.val 6 = 59 :=
+  ⟨initialized_wf, fun _ => rfl, by decide +kernel, by decide +kernel, by decide +kernel,
+    by decide +kernel⟩
+
+/-- `gate_mul` is `gate_add`; all of the above applies verbatim. -/
+theorem gateMul_iff (s : Constraint) (c : Composer) (hwf : c.WF) (w : Nat → Nat) :
+    ((gateMul s).run c).2.rowsHoldW w c.gates.size ((gateMul s).run c).2.gates.size ↔
+      toF (w ((gateMul s).run c).1) =
+        toF s.qm * toF (w s.a) * toF (w s.b) + toF s.ql * toF (w s.a) + toF s.qr * toF (w s.b)
+          + toF s.qf * toF (w s.d) + toF s.qc + (if s.hasPi then toF s.pi else 0) :=
+  gateAdd_iff s c hwf w
+
+theorem gateMul_unique (s : Constraint) (c : Composer) (hwf : c.WF) (w₁ w₂ : Nat → Nat)
+    (ha : toF (w₁ s.a) = toF (w₂ s.a)) (hb : toF (w₁ s.b) = toF (w₂ s.b))
+    (hd : toF (w₁ s.d) = toF (w₂ s.d))
+    (h₁ : ((gateMul s).run c).2.rowsHoldW w₁ c.gates.size ((gateMul s).run c).2.gates.size)
+    (h₂ : ((gateMul s).run c).2.rowsHoldW w₂ c.gates.size ((gateMul s).run c).2.gates.size) :
+    toF (w₁ ((gateMul s).run c).1) = toF (w₂ ((gateMul s).run c).1) :=
+  gateAdd_unique s c hwf w₁ w₂ ha hb hd h₁ h₂
+
+example : ∃ w, ((gateMul { qm := 1, a := 2, b := 4 }).run initialized).2.rowsHoldW w 4 5 := by
+  obtain ⟨w, -, h⟩ := gateAdd_exists { qm := 1, a := 2, b := 4 } initialized initialized_wf
+    (by decide +kernel) (by decide +kernel) (by decide +kernel) (fun _ => 3)
+  exact ⟨w, h⟩
+
+/-! ## `assert_equal` -/
+
+theorem assertEqual_layout (a b : Nat) (c : Composer) :
+    Appends c ((assertEqual a b).run c).2 1 0 := assertEqual_appends a b c
+
+/-- the row of `assert_equal a b` holds under `w` iff `w a = w b` -/
+theorem assertEqual_iff (a b : Nat) (c : Composer) (hwf : c.WF) (w : Nat → Nat) :
+    ((assertEqual a b).run c).2.rowsHoldW w c.gates.size ((assertEqual a b).run c).2.gates.size ↔
+      toF (w a) = toF (w b) := assertEqual_rows_iff a b c hwf w
+
+/-- the model's own table satisfies the row iff the two stored values are equal -/
+theorem assertEqual_honest_iff (a b : Nat) (c : Composer) (hwf : c.WF) :
+    ((assertEqual a b).run c).2.rowsHoldW ((assertEqual a b).run c).2.val c.gates.size
+      ((assertEqual a b).run c).2.gates.size ↔ c.val a = c.val b :=
+  Composer.assertEqual_honest_iff a b c hwf
+
+/-- non-vacuity: on `initialized`, witnesses 1 and 3 both hold `1` (satisfied), 0 and 1 hold
+    `0 ≠ 1` (not satisfied) -/
+example :
+    ((assertEqual 1 3).run initialized).2.rowsHoldW ((assertEqual 1 3).run initialized).2.val 4 5 ∧
+    ¬ ((assertEqual 0 1).run initialized).2.rowsHoldW ((assertEqual 0 1).run initialized).2.val 4 5 :=
+  ⟨(assertEqual_honest_iff 1 3 initialized initialized_wf).mpr (by decide +kernel),
+   fun h => absurd ((assertEqual_honest_iff 0 1 initialized initialized_wf).mp h)
+     (by decide +kernel)⟩
+
+/-! ## `assert_equal_constant` -/
+
+theorem assertEqualConstant_layout (a k : Nat) (pub : Option Nat) (c : Composer) :
+    Appends c ((assertEqualConstant a k pub).run c).2 1 0 := assertEqualConstant_appends a k pub c
+
+/-- the row of `assert_equal_constant a k pub` holds under `w` iff `w a = k + pub`
+    (`pub` read as `0` when absent) -/
+theorem assertEqualConstant_iff (a k : Nat) (pub : Option Nat) (c : Composer) (hwf : c.WF)
+    (w : Nat → Nat) :
+    ((assertEqualConstant a k pub).run c).2.rowsHoldW w c.gates.size
+        ((assertEqualConstant a k pub).run c).2.gates.size ↔
+      toF (w a) = toF k + (match pub with | some p => toF p | none => 0) := by
+  rw [assertEqualConstant_rows_iff a k pub c hwf w]
+  cases pub <;> rfl
+
+/-- non-vacuity: witness 2 of `initialized` holds `6 = 4 + 2` and `6 = 6`, but not `5` -/
+example :
+    ((assertEqualConstant 2 4 (some 2)).run initialized).2.rowsHoldW initialized.val 4 5 ∧
+    ((assertEqualConstant 2 6 none).run initialized).2.rowsHoldW initialized.val 4 5 ∧
+    ¬ ((assertEqualConstant 2 5 none).run initialized).2.rowsHoldW initialized.val 4 5 :=
+  ⟨(assertEqualConstant_iff 2 4 (some 2) initialized initialized_wf _).mpr (by decide +kernel),
+   (assertEqualConstant_iff 2 6 none initialized initialized_wf _).mpr (by decide +kernel),
+   fun h => absurd ((assertEqualConstant_iff 2 5 none initialized initialized_wf _).mp h)
+     (by decide +kernel)⟩
+
+/-! ## `append_constant` -/
+
+theorem appendConstant_layout (v : Nat) (c : Composer) :
+    ((appendConstant v).run c).1 = c.wit.size ∧ Appends c ((appendConstant v).run c).2 1 1 :=
+  ⟨appendConstant_fst v c, appendConstant_appends v c⟩
+
+/-- the row of `append_constant v` holds under `w` iff the returned witness carries `v` -/
+theorem appendConstant_iff (v : Nat) (c : Composer) (hwf : c.WF) (w : Nat → Nat) :
+    ((appendConstant v).run c).2.rowsHoldW w c.gates.size ((appendConstant v).run c).2.gates.size ↔
+      toF (w ((appendConstant v).run c).1) = toF v := appendConstant_rows_iff v c hwf w
+
+/-- the returned witness is determined (it has no inputs) -/
+theorem appendConstant_unique (v : Nat) (c : Composer) (hwf : c.WF) (w₁ w₂ : Nat → Nat)
+    (h₁ : ((appendConstant v).run c).2.rowsHoldW w₁ c.gates.size
+      ((appendConstant v).run c).2.gates.size)
+    (h₂ : ((appendConstant v).run c).2.rowsHoldW w₂ c.gates.size
+      ((appendConstant v).run c).2.gates.size) :
+    toF (w₁ ((appendConstant v).run c).1) = toF (w₂ ((appendConstant v).run c).1) := by
+  rw [(appendConstant_iff v c hwf w₁).mp h₁, (appendConstant_iff v c hwf w₂).mp h₂]
+
+/-- the model's own table satisfies the row, always -/
+theorem appendConstant_honest (v : Nat) (c : Composer) (hwf : c.WF) :
+    ((appendConstant v).run c).2.rowsHoldW ((appendConstant v).run c).2.val c.gates.size
+      ((appendConstant v).run c).2.gates.size := Composer.appendConstant_honest v c hwf
+
+example : ((appendConstant 42).run initialized).2.rowsHoldW
+    ((appendConstant 42).run initialized).2.val 4 5 ∧
+    ((appendConstant 42).run initialized).2.val 6 = 42 :=
+  ⟨appendConstant_honest 42 initialized initialized_wf, by decide +kernel⟩
+
+/-! ## `append_public` -/
+
+theorem appendPublic_layout (v : Nat) (c : Composer) :
+    ((appendPublic v).run c).1 = c.wit.size ∧ Appends c ((appendPublic v).run c).2 1 1 ∧
+      ((appendPublic v).run c).2.piAt c.gates.size = v % R :=
+  ⟨appendPublic_fst v c, appendPublic_appends v c, appendPublic_piAt v c⟩
+
+/-- the row of `append_public v` holds under `w` iff the returned witness equals the public
+    input `v` recorded for that row -/
+theorem appendPublic_iff (v : Nat) (c : Composer) (hwf : c.WF) (w : Nat → Nat) :
+    ((appendPublic v).run c).2.rowsHoldW w c.gates.size ((appendPublic v).run c).2.gates.size ↔
+      toF (w ((appendPublic v).run c).1) = toF (((appendPublic v).run c).2.piAt c.gates.size) := by
+  rw [appendPublic_piAt, toF_mod]; exact appendPublic_rows_iff v c hwf w
+
+theorem appendPublic_unique (v : Nat) (c : Composer) (hwf : c.WF) (w₁ w₂ : Nat → Nat)
+    (h₁ : ((appendPublic v).run c).2.rowsHoldW w₁ c.gates.size
+      ((appendPublic v).run c).2.gates.size)
+    (h₂ : ((appendPublic v).run c).2.rowsHoldW w₂ c.gates.size
+      ((appendPublic v).run c).2.gates.size) :
+    toF (w₁ ((appendPublic v).run c).1) = toF (w₂ ((appendPublic v).run c).1) := by
+  rw [(appendPublic_iff v c hwf w₁).mp h₁, (appendPublic_iff v c hwf w₂).mp h₂]
+
+/-- the model's own table satisfies the row, always -/
+theorem appendPublic_honest (v : Nat) (c : Composer) (hwf : c.WF) :
+    ((appendPublic v).run c).2.rowsHoldW ((appendPublic v).run c).2.val c.gates.size
+      ((appendPublic v).run c).2.gates.size := Composer.appendPublic_honest v c hwf
+
+example : ((appendPublic 42).run initialized).2.rowsHoldW
+    ((appendPublic 42).run initialized).2.val 4 5 ∧
+    ((appendPublic 42).run initialized).2.val 6 = 42 ∧
+    ((appendPublic 42).run initialized).2.piAt 4 = 42 :=
+  ⟨appendPublic_honest 42 initialized initialized_wf, by decide +kernel, by decide +kernel⟩
+
+/-! ## `component_boolean` -/
+
+theorem componentBoolean_layout (a : Nat) (c : Composer) :
+    Appends c ((componentBoolean a).run c).2 1 0 := componentBoolean_appends a c
+
+/-- the row of `component_boolean a` holds under `w` iff `x·x = x`, i.e. `x ∈ {0, 1}` -/
+theorem componentBoolean_iff (a : Nat) (c : Composer) (hwf : c.WF) (w : Nat → Nat) :
+    (((componentBoolean a).run c).2.rowsHoldW w c.gates.size
+        ((componentBoolean a).run c).2.gates.size ↔ toF (w a) * toF (w a) = toF (w a)) ∧
+    (((componentBoolean a).run c).2.rowsHoldW w c.gates.size
+        ((componentBoolean a).run c).2.gates.size ↔ (toF (w a) = 0 ∨ toF (w a) = 1)) :=
+  ⟨componentBoolean_rows_iff_sq a c hwf w, componentBoolean_rows_iff a c hwf w⟩
+
+/-- the model's own table satisfies the row iff the stored value is `0` or `1` -/
+theorem componentBoolean_honest_iff (a : Nat) (c : Composer) (hwf : c.WF) :
+    ((componentBoolean a).run c).2.rowsHoldW ((componentBoolean a).run c).2.val c.gates.size
+      ((componentBoolean a).run c).2.gates.size ↔ (c.val a = 0 ∨ c.val a = 1) :=
+  Composer.componentBoolean_honest_iff a c hwf
+
+/-- non-vacuity: on `initialized` witnesses 0, 1 (values 0, 1) are boolean, witness 2 (value 6)
+    is not -/
+example :
+    ((componentBoolean 0).run initialized).2.rowsHoldW initialized.val 4 5 ∧
+    ((componentBoolean 1).run initialized).2.rowsHoldW initialized.val 4 5 ∧
+    ¬ ((componentBoolean 2).run initialized).2.rowsHoldW initialized.val 4 5 :=
+  ⟨(componentBoolean_honest_iff 0 initialized initialized_wf).mpr (by decide +kernel),
+   (componentBoolean_honest_iff 1 initialized initialized_wf).mpr (by decide +kernel),
+   fun h => absurd ((componentBoolean_honest_iff 2 initialized initialized_wf).mp h)
+     (by decide +kernel)⟩
+
+/-! ## `component_select` -/
+
+/-- four witnesses `n … n+3` (`n = c.wit.size`) and four plain gates are appended; `n+3` is
+    returned -/
+theorem componentSelect_layout (bit a b : Nat) (c : Composer) :
+    ((componentSelect bit a b).run c).1 = c.wit.size + 3 ∧
+      Appends c ((componentSelect bit a b).run c).2 4 4 :=
+  ⟨componentSelect_fst bit a b c, componentSelect_appends bit a b c⟩
+
+/-- The four rows of `component_select bit a b` hold under `w` iff the three intermediate
+    witnesses carry `bit·a`, `1 − bit`, `(1 − bit)·b` and the returned one carries
+    `bit·a + (1 − bit)·b`. -/
+theorem componentSelect_iff (bit a b : Nat) (c : Composer) (hwf : c.WF) (w : Nat → Nat) :
+    ((componentSelect bit a b).run c).2.rowsHoldW w c.gates.size
+        ((componentSelect bit a b).run c).2.gates.size ↔
+      (toF (w c.wit.size) = toF (w bit) * toF (w a) ∧
+       toF (w (c.wit.size + 1)) = 1 - toF (w bit) ∧
+       toF (w (c.wit.size + 2)) = (1 - toF (w bit)) * toF (w b) ∧
+       toF (w ((componentSelect bit a b).run c).1) =
+         toF (w bit) * toF (w a) + (1 - toF (w bit)) * toF (w b)) := by
+  rw [componentSelect_rows_iff bit a b c hwf w, componentSelect_fst]
+  constructor
+  · rintro ⟨h1, h2, h3, h4⟩
+    refine ⟨h1, h2, by rw [h3, h2], by rw [h4, h3, h2, h1]; ring⟩
+  · rintro ⟨h1, h2, h3, h4⟩
+    refine ⟨h1, h2, by rw [h3, h2], by rw [h4, h3, h1]; ring⟩
+
+/-- the returned witness (and each intermediate one) is determined by the input wires -/
+theorem componentSelect_unique (bit a b : Nat) (c : Composer) (hwf : c.WF) (w₁ w₂ : Nat → Nat)
+    (hbit : toF (w₁ bit) = toF (w₂ bit)) (ha : toF (w₁ a) = toF (w₂ a))
+    (hb : toF (w₁ b) = toF (w₂ b))
+    (h₁ : ((componentSelect bit a b).run c).2.rowsHoldW w₁ c.gates.size
+        ((componentSelect bit a b).run c).2.gates.size)
+    (h₂ : ((componentSelect bit a b).run c).2.rowsHoldW w₂ c.gates.size
+        ((componentSelect bit a b).run c).2.gates.size) :
+    toF (w₁ ((componentSelect bit a b).run c).1) = toF (w₂ ((componentSelect bit a b).run c).1) ∧
+      toF (w₁ c.wit.size) = toF (w₂ c.wit.size) ∧
+      toF (w₁ (c.wit.size + 1)) = toF (w₂ (c.wit.size + 1)) ∧
+      toF (w₁ (c.wit.size + 2)) = toF (w₂ (c.wit.size + 2)) := by
+  obtain ⟨p1, p2, p3, p4⟩ := (componentSelect_iff bit a b c hwf w₁).mp h₁
+  obtain ⟨q1, q2, q3, q4⟩ := (componentSelect_iff bit a b c hwf w₂).mp h₂
+  refine ⟨?_, ?_, ?_, ?_⟩
+  · rw [p4, q4, hbit, ha, hb]
+  · rw [p1, q1, hbit, ha]
+  · rw [p2, q2, hbit]
+  · rw [p3, q3, hbit, hb]
+
+/-- every assignment of the old witnesses extends to the four new ones -/
+theorem componentSelect_exists (bit a b : Nat) (c : Composer) (hwf : c.WF)
+    (hbit : bit < c.wit.size) (ha : a < c.wit.size) (hb : b < c.wit.size) (w₀ : Nat → Nat) :
+    ∃ w, (∀ i, i < c.wit.size → w i = w₀ i) ∧
+      ((componentSelect bit a b).run c).2.rowsHoldW w c.gates.size
+        ((componentSelect bit a b).run c).2.gates.size :=
+  Composer.componentSelect_exists bit a b c hwf hbit ha hb w₀
+
+/-- the model's own table satisfies the four rows -/
+theorem componentSelect_honest (bit a b : Nat) (c : Composer) (hwf : c.WF)
+    (hbit : bit < c.wit.size) (ha : a < c.wit.size) (hb : b < c.wit.size) :
+    ((componentSelect bit a b).run c).2.rowsHoldW ((componentSelect bit a b).run c).2.val
+      c.gates.size ((componentSelect bit a b).run c).2.gates.size :=
+  Composer.componentSelect_honest bit a b c hwf hbit ha hb
+
+/-- non-vacuity: on `initialized`, `select(w₁ = 1, w₂ = 6, w₄ = 7) = 6` and
+    `select(w₀ = 0, w₂ = 6, w₄ = 7) = 7` -/
+example :
+    initialized.WF ∧ 1 < initialized.wit.size ∧ 2 < initialized.wit.size ∧
+      4 < initialized.wit.size ∧
+      ((componentSelect 1 2 4).run initialized).2.val 9 = 6 ∧
+      ((componentSelect 0 2 4).run initialized).2.val 9 = 7 ∧
+      ((componentSelect 1 2 4).run initialized).2.rowsHoldW
+        ((componentSelect 1 2 4).run initialized).2.val 4 8 :=
+  ⟨initialized_wf, by decide +kernel, by decide +kernel, by decide +kernel, by decide +kernel,
+    by decide +kernel,
+    componentSelect_honest 1 2 4 initialized initialized_wf (by decide +kernel) (by decide +kernel)
+      (by decide +kernel)⟩
+
+/-! ## `component_select_one` -/
+
+theorem componentSelectOne_layout (bit value : Nat) (c : Composer) :
+    ((componentSelectOne bit value).run c).1 = c.wit.size ∧
+      Appends c ((componentSelectOne bit value).run c).2 1 1 :=
+  ⟨componentSelectOne_fst bit value c, componentSelectOne_appends bit value c⟩
+
+/-- the row holds under `w` iff the returned witness carries `1 − bit + bit·value` -/
+theorem componentSelectOne_iff (bit value : Nat) (c : Composer) (hwf : c.WF) (w : Nat → Nat) :
+    ((componentSelectOne bit value).run c).2.rowsHoldW w c.gates.size
+        ((componentSelectOne bit value).run c).2.gates.size ↔
+      toF (w ((componentSelectOne bit value).run c).1) =
+        1 - toF (w bit) + toF (w bit) * toF (w value) :=
+  componentSelectOne_rows_iff bit value c hwf w
+
+theorem componentSelectOne_unique (bit value : Nat) (c : Composer) (hwf : c.WF)
+    (w₁ w₂ : Nat → Nat) (hbit : toF (w₁ bit) = toF (w₂ bit))
+    (hv : toF (w₁ value) = toF (w₂ value))
+    (h₁ : ((componentSelectOne bit value).run c).2.rowsHoldW w₁ c.gates.size
+        ((componentSelectOne bit value).run c).2.gates.size)
+    (h₂ : ((componentSelectOne bit value).run c).2.rowsHoldW w₂ c.gates.size
+        ((componentSelectOne bit value).run c).2.gates.size) :
+    toF (w₁ ((componentSelectOne bit value).run c).1) =
+      toF (w₂ ((componentSelectOne bit value).run c).1) := by
+  rw [(componentSelectOne_iff bit value c hwf w₁).mp h₁,
+    (componentSelectOne_iff bit value c hwf w₂).mp h₂, hbit, hv]
+
+theorem componentSelectOne_exists (bit value : Nat) (c : Composer) (hwf : c.WF)
+    (hb : bit < c.wit.size) (hv : value < c.wit.size) (w₀ : Nat → Nat) :
+    ∃ w, (∀ i, i ≠ c.wit.size → w i = w₀ i) ∧
+      ((componentSelectOne bit value).run c).2.rowsHoldW w c.gates.size
+        ((componentSelectOne bit value).run c).2.gates.size :=
+  Composer.componentSelectOne_exists bit value c hwf hb hv w₀
+
+theorem componentSelectOne_honest (bit value : Nat) (c : Composer) (hwf : c.WF)
+    (hb : bit < c.wit.size) (hv : value < c.wit.size) :
+    ((componentSelectOne bit value).run c).2.rowsHoldW
+      ((componentSelectOne bit value).run c).2.val c.gates.size
+      ((componentSelectOne bit value).run c).2.gates.size :=
+  Composer.componentSelectOne_honest bit value c hwf hb hv
+
+/-- non-vacuity: `select_one(1, 6) = 6`, `select_one(0, 6) = 1` on `initialized` -/
+example :
+    ((componentSelectOne 1 2).run initialized).2.val 6 = 6 ∧
+    ((componentSelectOne 0 2).run initialized).2.val 6 = 1 ∧
+    ((componentSelectOne 1 2).run initialized).2.rowsHoldW
+      ((componentSelectOne 1 2).run initialized).2.val 4 5 :=
+  ⟨by decide +kernel, by decide +kernel,
+    componentSelectOne_honest 1 2 initialized initialized_wf (by decide +kernel)
+      (by decide +kernel)⟩
+
+/-! ## `component_select_zero` -/
+
+theorem componentSelectZero_layout (bit value : Nat) (c : Composer) :
+    ((componentSelectZero bit value).run c).1 = c.wit.size ∧
+      Appends c ((componentSelectZero bit value).run c).2 1 1 :=
+  ⟨componentSelectZero_fst bit value c, componentSelectZero_appends bit value c⟩
+
+/-- the row holds under `w` iff the returned witness carries `bit·value` -/
+theorem componentSelectZero_iff (bit value : Nat) (c : Composer) (hwf : c.WF) (w : Nat → Nat) :
+    ((componentSelectZero bit value).run c).2.rowsHoldW w c.gates.size
+        ((componentSelectZero bit value).run c).2.gates.size ↔
+      toF (w ((componentSelectZero bit value).run c).1) = toF (w bit) * toF (w value) := by
+  rw [componentSelectZero_fst]; exact componentSelectZero_rows_iff bit value c hwf w
+
+theorem componentSelectZero_unique (bit value : Nat) (c : Composer) (hwf : c.WF)
+    (w₁ w₂ : Nat → Nat) (hbit : toF (w₁ bit) = toF (w₂ bit))
+    (hv : toF (w₁ value) = toF (w₂ value))
+    (h₁ : ((componentSelectZero bit value).run c).2.rowsHoldW w₁ c.gates.size
+        ((componentSelectZero bit value).run c).2.gates.size)
+    (h₂ : ((componentSelectZero bit value).run c).2.rowsHoldW w₂ c.gates.size
+        ((componentSelectZero bit value).run c).2.gates.size) :
+    toF (w₁ ((componentSelectZero bit value).run c).1) =
+      toF (w₂ ((componentSelectZero bit value).run c).1) := by
+  rw [(componentSelectZero_iff bit value c hwf w₁).mp h₁,
+    (componentSelectZero_iff bit value c hwf w₂).mp h₂, hbit, hv]
+
+theorem componentSelectZero_exists (bit value : Nat) (c : Composer) (hwf : c.WF)
+    (hb : bit < c.wit.size) (hv : value < c.wit.size) (w₀ : Nat → Nat) :
+    ∃ w, (∀ i, i ≠ c.wit.size → w i = w₀ i) ∧
+      ((componentSelectZero bit value).run c).2.rowsHoldW w c.gates.size
+        ((componentSelectZero bit value).run c).2.gates.size :=
+  Composer.componentSelectZero_exists bit value c hwf hb hv w₀
+
+theorem componentSelectZero_honest (bit value : Nat) (c : Composer) (hwf : c.WF)
+    (hb : bit < c.wit.size) (hv : value < c.wit.size) :
+    ((componentSelectZero bit value).run c).2.rowsHoldW
+      ((componentSelectZero bit value).run c).2.val c.gates.size
+      ((componentSelectZero bit value).run c).2.gates.size :=
+  Composer.componentSelectZero_honest bit value c hwf hb hv
+
+/-- non-vacuity: `select_zero(1, 6) = 6`, `select_zero(0, 6) = 0` on `initialized` -/
+example :
+    ((componentSelectZero 1 2).run initialized).2.val 6 = 6 ∧
+    ((componentSelectZero 0 2).run initialized).2.val 6 = 0 ∧
+    ((componentSelectZero 1 2).run initialized).2.rowsHoldW
+      ((componentSelectZero 1 2).run initialized).2.val 4 5 :=
+  ⟨by decide +kernel, by decide +kernel,
+    componentSelectZero_honest 1 2 initialized initialized_wf (by decide +kernel)
+      (by decide +kernel)⟩
+
+/-! ## the initial state and preservation of well-formedness -/
+
+/-- `Composer::initialized()`: 4 plain gates, 6 witnesses, well-formed, its own values satisfy its
+    rows, and rows 0 and 1 pin `ZERO = 0`, `ONE = 1` — in `initialized` itself and in every
+    extension of it. -/
+theorem initialized_spec :
+    initialized.gates.size = 4 ∧ initialized.wit.size = 6 ∧ initialized.WF ∧
+      initialized.rowsHoldW initialized.val 0 4 ∧
+      (∀ c : Composer, Extends initialized c → ∀ w : Nat → Nat, c.rowsHoldW w 0 2 →
+        toF (w Composer.ZERO) = 0 ∧ toF (w Composer.ONE) = 1) :=
+  ⟨initialized_gates_size, initialized_wit_size, initialized_wf, initialized_honest,
+    fun _ hext w h => initialized_base_ext hext w h⟩
+
+example : Extends initialized ((componentSelect 1 2 4).run initialized).2 :=
+  componentSelect_extends 1 2 4 initialized
+
+/-- every component of this property preserves well-formedness of the composer state, so the
+    hypothesis `c.WF` of the theorems above holds in every state reached from `initialized`
+    through them -/
+theorem wf_preserved (c : Composer) (hwf : c.WF) :
+    (∀ s, ((appendGate s).run c).2.WF) ∧ (∀ s, ((appendEvaluatedOutput s).run c).2.WF) ∧
+    (∀ s, ((gateAdd s).run c).2.WF) ∧ (∀ s, ((gateMul s).run c).2.WF) ∧
+    (∀ a b, ((assertEqual a b).run c).2.WF) ∧
+    (∀ a k pub, ((assertEqualConstant a k pub).run c).2.WF) ∧
+    (∀ v, ((appendConstant v).run c).2.WF) ∧ (∀ v, ((appendPublic v).run c).2.WF) ∧
+    (∀ a, ((componentBoolean a).run c).2.WF) ∧
+    (∀ bit a b, ((componentSelect bit a b).run c).2.WF) ∧
+    (∀ bit v, ((componentSelectOne bit v).run c).2.WF) ∧
+    (∀ bit v, ((componentSelectZero bit v).run c).2.WF) :=
+  ⟨fun s => appendGate_wf s c hwf, fun s => appendEvaluatedOutput_wf s c hwf,
+   fun s => gateAdd_wf s c hwf, fun s => gateAdd_wf s c hwf,
+   fun a b => assertEqual_wf a b c hwf, fun a k pub => assertEqualConstant_wf a k pub c hwf,
+   fun v => appendConstant_wf v c hwf, fun v => appendPublic_wf v c hwf,
+   fun a => componentBoolean_wf a c hwf, fun bit a b => componentSelect_wf bit a b c hwf,
+   fun bit v => componentSelectOne_wf bit v c hwf,
+   fun bit v => componentSelectZero_wf bit v c hwf⟩
+
+example : Composer.WF initialized := initialized_wf
 
 end Plonk.Props.C08
